@@ -131,6 +131,9 @@ func cmdVerify(args []string) {
 		if len(r.Uncontracted) > 0 {
 			fmt.Printf("   uncontracted: %v\n", r.Uncontracted)
 		}
+		if len(r.Dropped) > 0 && *verbose {
+			fmt.Printf("   dropped: %v\n", r.Dropped)
+		}
 		for _, o := range r.Obls {
 			if o.Status != "discharged" || *verbose {
 				fmt.Printf("   [%s] %s (%s, %.2fs) %s  -- %s\n", o.Status, o.ID, o.Backend, o.TimeS, o.Pos, o.Text)
